@@ -472,8 +472,9 @@ nodesLoop:
 			tc.addToAncestors(node)
 			// Check the init.
 			if node.Init != nil {
-				// TODO: this type assertion should be removed/handled differently.
-				tc.checkGenericAssignmentNode(node.Init.(*ast.Assignment))
+				// The init statement can also be an expression statement, as in
+				// 'switch f(); x {'.
+				tc.checkNodes([]ast.Node{node.Init})
 			}
 			// Check the expression.
 			var texpr *typeInfo
@@ -564,8 +565,9 @@ nodesLoop:
 			tc.scopes.Enter(node)
 			tc.addToAncestors(node)
 			if node.Init != nil {
-				// TODO: this type assertion should be removed/handled differently.
-				tc.checkGenericAssignmentNode(node.Init.(*ast.Assignment))
+				// The init statement can also be an expression statement, as in
+				// 'switch f(); x {'.
+				tc.checkNodes([]ast.Node{node.Init})
 			}
 			ta := node.Assignment.Rhs[0].(*ast.TypeAssertion)
 			t := tc.checkExpr(ta.Expr)
